@@ -19,7 +19,7 @@ def gpg_entry(key, data, rng, state="valid"):
 
 
 def signed_root(version, keys, t, signers, rng, km_keys=None, km_t=1, bad_signers=(), junk=0, md_type="root",
-                extra=None, unauthorized=()):
+                extra=None, unauthorized=(), respelled_copies=()):
     """envelope of root metadata signed (OpenPGP-wrapped, reference signer) by `signers`"""
     km_keys = km_keys if km_keys is not None else [gkeys.key(7)]
     md = gmd.root_md(version, keys, t, km_keys, km_t)
@@ -33,11 +33,16 @@ def signed_root(version, keys, t, signers, rng, km_keys=None, km_t=1, bad_signer
     for k in bad_signers:
         if k.hex not in env["signatures"]:
             st = rng.choice(["bitflip", "other_payload", "malleated", "hdr_flip", "boundary_shift", "other_key", "raw_sig_with_hdr",
-                             "hugehdr_garbage_sig"])
+                             "hugehdr_garbage_sig", "alg_sha512_declared_and_used", "alg_sha1_declared_and_used"])
             env["signatures"][k.hex] = gpg_entry(k, data, rng, st)
     for k in unauthorized:
         if k.hex not in env["signatures"]:
             env["signatures"][k.hex] = gpg_entry(k, data, rng, "valid")
+    for k in respelled_copies:
+        # a verbatim copy of a valid signer's entry filed under another spelling of its key (must not add a signer)
+        if k.hex in env["signatures"]:
+            sp = rng.choice([k.hex + "\n", " " + k.hex, k.hex + " ", k.hex.upper(), "\t" + k.hex, k.hex + "\u00a0", k.hex[:32] + " " + k.hex[32:]])
+            env["signatures"][sp] = copy.deepcopy(env["signatures"][k.hex])
     for _ in range(junk):
         # junk under junk keys, but with WELL-FORMED values (anything else is a malformation of the metadata)
         jk = rng.choice([gkeys.junk_hexkey(rng), "junk%d" % rng.randrange(100), "\ud800", "é", ""])
@@ -223,7 +228,7 @@ def gen_pair(rng, row=None):
         else:
             trusted_type_flip = True
     new = signed_root(v2, K2, t2, signer_keys, rng, bad_signers=bad, junk=rng.choice([0, 0, 1, 3]), md_type=new_type,
-                      unauthorized=unauth)
+                      unauthorized=unauth, respelled_copies=signer_keys if rng.random() < 0.35 else ())
     if trusted_type_flip:
         trusted["signed"]["type"] = "key_mgr"
     if "new_malformed" in fails:
